@@ -73,6 +73,8 @@ pub fn run(opts: &Opts, rep: &Report) {
         Mode::Run(t) => t,
         _ => unreachable!(),
     };
+    // witnesses printed by the repository's own command-line tool (a fifth of the budget at most)
+    crate::mctool::stage("C03", tier, opts.seed, &Budget::new(opts.budget_s * 0.2), rep);
     let budget = Budget::new(opts.budget_s);
     let scratch = Report::new("C03", tier, opts.seed, "model_checking");
     let all: Vec<_> = cases(tier, opts.seed, &scratch).into_iter().filter(|c| c.expect_fail).collect();
@@ -147,6 +149,9 @@ pub fn run(opts: &Opts, rep: &Report) {
 }
 
 pub fn replay(case: &Value, rep: &Report) {
+    if crate::mctool::replay("C03", case, rep) {
+        return;
+    }
     let spec = SysSpec::from_json(&case["sys"]).expect("system");
     let cfg = cfg_from_json(&case["cfg"]);
     let sched = case["schedule"].as_str().unwrap_or("").to_string();
